@@ -160,6 +160,37 @@ func ruleReattach(c *Ctx) {
 			}
 		}
 	}
+	if !(okP && okDefault && nConst == 1) {
+		// the same, decided on values: on every feasible path to the normal exit
+		// Client.protocol holds the configured protocol when that was tested
+		// non-empty, and the net/rpc constant when it was tested empty
+		outs, capped := p.originWalk(f, protoF, func(e ast.Expr) string {
+			if SelField(info, e) == rProto {
+				return "R"
+			}
+			if sv, isS := constString(info, e); isS && sv == "netrpc" {
+				return "K"
+			}
+			return ""
+		}, "R")
+		okVal := !capped && len(outs) > 0
+		sawR, sawK := false, false
+		for _, o := range outs {
+			switch {
+			case o[0] == "R" && o[1] == "false":
+				sawR = true
+			case o[0] == "K" && o[1] == "true":
+				sawK = true
+			case o[0] == "":
+				// an exit on which the protocol was not stored (the error returns)
+			default:
+				okVal = false
+			}
+		}
+		if okVal && sawR && sawK {
+			okP, okDefault, nConst = true, true, 1
+		}
+	}
 	hold(okP && okDefault && nConst == 1, "protocol from ReattachConfig.Protocol, default net/rpc", "", "the protocol after reattach is not ReattachConfig.Protocol with net/rpc as the default for an empty value")
 	nv := srcOf(nvF)
 	hold(len(nv) == 1 && nv[0] == rPV, "negotiated version from ReattachConfig.ProtocolVersion", "", "the negotiated version after a test-mode reattach is not ReattachConfig.ProtocolVersion")
